@@ -329,8 +329,8 @@ VT_HARNESS(h_enc_tr1) { vt::lemma_encode<vt::TR1>(); }
 VT_HARNESS(h_enc_tn) { vt::lemma_encode<vt::TN>(); }
 VT_HARNESS(h_dec_tw_ped) { vt::lemma_decode<vt::TW, nop::PedanticBufferReader, 10, false, false>(); }
 VT_HARNESS(h_dec_tw_ped14) { vt::lemma_decode<vt::TW, nop::PedanticBufferReader, 14, false, false>(); }
-VT_HARNESS(h_dec_tw_buf) { vt::lemma_decode<vt::TW, nop::BufferReader, 14, false, false>(); }
-VT_HARNESS(h_dec_tw_bnd) { vt::lemma_decode<vt::TW, vt::BndR, 14, false, false>(); }
+VT_HARNESS(h_dec_tw_buf) { vt::lemma_decode<vt::TW, nop::BufferReader, 10, false, false>(); }
+VT_HARNESS(h_dec_tw_bnd) { vt::lemma_decode<vt::TW, vt::BndR, 10, false, false>(); }
 VT_HARNESS(h_dec_tr1_ped) { vt::lemma_decode<vt::TR1, nop::PedanticBufferReader, 10, false, false>(); }
 VT_HARNESS(h_dec_tn_ped) { vt::lemma_decode<vt::TN, nop::PedanticBufferReader, 18, false, false>(); }
 VT_HARNESS(h_trunc_tw_ped) { vt::lemma_truncate<vt::TW, nop::PedanticBufferReader, 10, false>(); }
